@@ -499,14 +499,20 @@ theorem tailEv_urisQ (isDt : Str → Bool) (t : Option Str) : ((tailEv t).map (e
   | none => simp [tailEv]
   | some s => by_cases h : s = [] <;> simp [tailEv, h, evUrisQ, dataUris]
 
+theorem nilFlush_urisQ (isDt : Str → Bool) (a : List (QN × Str)) :
+    ((nilFlush a).map (evUrisQ isDt)).flatten = [] := by
+  by_cases h : a.any (·.1 = xsiNil) = true
+  · simp [nilFlush, h, evUrisQ, dataUris]
+  · simp [nilFlush, h]
+
 mutual
 theorem treeEv_urisQ (e : Env) (nil : Bool) (isDt : Str → Bool) :
     ∀ t : Tree, treeOK isDt t = true → ((treeEv e nil t).map (evUrisQ isDt)).flatten = []
   | .node q a n tx c tl, hok => by
-    obtain ⟨_, hd, hst, _, hpl, hc⟩ := treeOK_node hok
+    obtain ⟨_, hd, hst, hpl, hc⟩ := treeOK_node hok
     have ih := forestEv_urisQ e nil isDt c hc
     have ha := parseAnyAttributes_ok a n hd hst
-    simp only [treeEv, ha, List.map_append, List.flatten_append, attrEv_urisQ isDt a hpl, ih, tailEv_urisQ,
+    simp only [treeEv, ha, List.map_append, List.flatten_append, attrEv_urisQ isDt a hpl, nilFlush_urisQ, ih, tailEv_urisQ,
       List.map_cons, List.map_nil, List.flatten_cons, List.flatten_nil, evUrisQ, textData_uris, List.append_nil]
 theorem forestEv_urisQ (e : Env) (nil : Bool) (isDt : Str → Bool) :
     ∀ ts : List Tree, treeOKList isDt ts = true → ((forestEv e nil ts).map (evUrisQ isDt)).flatten = []
